@@ -6,6 +6,14 @@ VERIF = os.path.dirname(os.path.dirname(os.path.abspath(__file__)))
 
 # id -> (category, technique, text, note)
 CLAIMS = {
+    'C02': ('other',
+            'static analysis: narrowing-site classification over the assembly closure (dominance of the range check whose size token equals the narrowing), interval extraction of check_imm_size, mode-variable consistency',
+            'Decides the "never silently truncated" clause: every fixed-width cast / mask applied to an operand value in the Intel and AT&T assembly closure is a literal, the parsers\' '
+            '32-bit normalisation, or dominated by check_imm_size for the same size token with rejection on None (or an explicit interval test on the narrowing type\'s limit); the byte '
+            'emission packs with the struct format of the checked size; the intervals of check_imm_size, the returned cast, dict_size formats and tab_size2int agree with the width '
+            'semantics of each size token; one mode variable drives the 0x66 prefix, the immediate width and the candidate tuple.',
+            'Not decided: that opcode/ModRM/SIB bytes denote the requested operands (the reverse table fd_afs is built at run time; its source tables are covered by C01/C17 rules), '
+            'candidate completeness, values outside [-2^31, 2^32) which the parsers normalise modulo 2^32 (0xFFFFFFFF is the same parsed value as -1).'),
     'C03': ('other',
             'static analysis: constant evaluation of printer tables and parser lexicons (register names, size keywords), injectivity analysis of the SSE suffix scheme, inverse-table comparison of mirrored special cases',
             'Decides necessary conditions of the round trip that are visible in tables: every register name and size keyword the printers can emit is in the corresponding '
